@@ -1060,6 +1060,11 @@ JANET_CORE_FN(cfun_asm,
     if (res.status != JANET_ASSEMBLE_OK) {
         janet_panics(res.error ? res.error : janet_cstring("invalid assembly"));
     }
+    /* The result is instantiated without an enclosing function, so there is nothing
+     * its environments could refer to (janet_thunk asserts this). */
+    if (res.funcdef->environments_length != 0) {
+        janet_panic("invalid assembly - top level function cannot have environments");
+    }
     return janet_wrap_function(janet_thunk(res.funcdef));
 }
 
